@@ -353,18 +353,45 @@ impl TxnCoordinator {
 
 impl Drop for TxnCoordinator {
     fn drop(&mut self) {
-        for txn_id in self.txn_ids.drain() {
-            if let Err(_error) = self
-                .inner
-                .session_control()
-                .try_send(SessionControl::AbortTransaction(txn_id))
-            {
-                // Session must have dropped
-                #[cfg(feature = "tracing")]
-                tracing::warn!("Failed to send AbortTransaction on coordinator drop: session dropped");
-                #[cfg(feature = "log")]
-                log::warn!("Failed to send AbortTransaction on coordinator drop: session dropped");
-                return;
+        use tokio::sync::mpsc::error::TrySendError;
+
+        let control = self.inner.session_control().clone();
+        let mut txn_ids = self.txn_ids.drain();
+        while let Some(txn_id) = txn_ids.next() {
+            match control.try_send(SessionControl::AbortTransaction(txn_id)) {
+                Ok(()) => {}
+                Err(TrySendError::Full(first)) => {
+                    // The control channel is full (it holds fewer messages than a
+                    // coordinator may have transactions): the remaining aborts are
+                    // handed over by a task, otherwise those transactions would stay
+                    // alive in the session with nobody left to discharge them
+                    let rest: Vec<_> = txn_ids.collect();
+                    if let Ok(handle) = tokio::runtime::Handle::try_current() {
+                        handle.spawn(async move {
+                            if control.send(first).await.is_err() {
+                                return;
+                            }
+                            for txn_id in rest {
+                                if control
+                                    .send(SessionControl::AbortTransaction(txn_id))
+                                    .await
+                                    .is_err()
+                                {
+                                    return;
+                                }
+                            }
+                        });
+                    }
+                    return;
+                }
+                Err(TrySendError::Closed(_)) => {
+                    // Session must have dropped
+                    #[cfg(feature = "tracing")]
+                    tracing::warn!("Failed to send AbortTransaction on coordinator drop: session dropped");
+                    #[cfg(feature = "log")]
+                    log::warn!("Failed to send AbortTransaction on coordinator drop: session dropped");
+                    return;
+                }
             }
         }
     }
